@@ -45,4 +45,31 @@ PROPS = {
     },
 }
 
+def _pred_ok(line, out):
+    return out.startswith("ok") and ";" in out
+
+
+PROPS["C01"] = {
+    "families": ["C01"],
+    "nontrivial": _pred_ok,
+    "rule": "exhaustive small scope (W in {1,2}; <=2 char n-grams of length 1..2 over {a,1} with same-shape type n-grams; optional "
+            "word; weights cycling through {-1,0,2}; all texts len<=4 (quick) / <=5 over {a,1}) + random well-formed models "
+            "(windows {1,2,3,4,5,8,9,40}: cache/plain, fixed/variable layouts; suffix-related n-grams; words equal to n-grams; "
+            "words <=12 chars; i16-extreme weights) x texts <=30 chars built from pattern occurrences, some with earlier labels; "
+            "non-trivial = distinct case whose predictor was built and prediction returned",
+    "scopes": {"quick": "176 small models x 30 texts", "thorough": "176 small models x 62 texts"},
+    "assumptions": ["no i32 overflow in score accumulation (weights are in the i16 range; sums stay far below 2^31 on the generated sizes)",
+                    "daachorse automata behave as their documented contract (matchesNoSuffix / matchesAll)"],
+}
+PROPS["C06"] = {
+    "families": ["C06"],
+    "nontrivial": _pred_ok,
+    "rule": "random well-formed models with 0-4 tag models (0-3 categories of 0/1/2/3/9 candidates, char and type tag n-grams at "
+            "rel 0..min(W,3), small weights so ties occur, 10% with empty boundary char or type model) x texts <=14 chars biased "
+            "to contain the tokens, boundaries from prediction or edited afterwards (incl. unknown), with and without score "
+            "storing; non-trivial = distinct case whose prediction and fill_tags returned",
+    "scopes": {},
+    "assumptions": ["daachorse automata behave as their documented contract"],
+}
+
 SETUP_EXTRA = []
